@@ -26,6 +26,14 @@ def showRes : Except Err Bytes → String
   | .error .alloc => "err:alloc"
   | .error _ => "err"
 
+/-- an extracted WAV as `<everything before the payload, hex>/<payload>` -/
+def showWav (w : Except Err Bytes) (size : Except Err Nat) : String :=
+  match w, size with
+  | .ok w, .ok n => if w.length < n then "short/" ++ showBytes w
+                    else hexOfBytes (w.take (w.length - n)) ++ "/" ++ showBytes (w.drop (w.length - n))
+  | .error .alloc, _ => "err:alloc"
+  | _, _ => "err"
+
 def bigStream : Nat := 268435456
 def bigArchive : Nat := 67108864
 
@@ -43,8 +51,24 @@ def clmPack (files : List (Bytes × Content)) : String :=
       let members := (List.range v.count).map fun i =>
         let nm := match v.name i with | .ok n => hexOfBytes n | .error _ => "err"
         let sz := match v.size i with | .ok n => toString n | .error _ => "err"
-        s!" {nm}:{sz}:{showRes (v.stream bytes i)}:{showRes (v.extractWav bytes i)}"
+        s!" {nm}:{sz}:{showRes (v.stream bytes i)}:{showWav (v.extractWav bytes i) (v.size i)}"
       s!"ok {showBytes bytes} {v.count}" ++ String.join members
+
+def clmPackList (files : List (Bytes × Content)) : String :=
+  match create files with
+  | .hang => "hang"
+  | .err => "err"
+  | .ok a =>
+    let bytes := a.toBytes
+    match Clm.open bytes with
+    | .error .alloc => "err:alloc"
+    | .error _ => "err"
+    | .ok v =>
+      let members := (List.range v.count).map fun i =>
+        let nm := match v.name i with | .ok n => hexOfBytes n | .error _ => "err"
+        let sz := match v.size i with | .ok n => toString n | .error _ => "err"
+        s!" {nm}:{sz}:{showRes (v.stream bytes i)}"
+      s!"ok {v.count}" ++ String.join members
 
 def safeName (n : Bytes) : Bool := !n.isEmpty && n != [46] && n != [46, 46] && !n.contains 47
 
@@ -68,7 +92,7 @@ def clmOp (v : View) (file : Bytes) (op : String) : Option String :=
   | "n" => do let i ← rest.toNat?; pure (match v.name (sizeT i) with | .ok n => hexOfBytes n | .error _ => "err")
   | "z" => do let i ← rest.toNat?; pure (match v.size (sizeT i) with | .ok n => toString n | .error _ => "err")
   | "s" => do let i ← rest.toNat?; pure (showRes (v.stream file (sizeT i)))
-  | "x" => do let i ← rest.toNat?; pure (showRes (v.extractWav file (sizeT i)))
+  | "x" => do let i ← rest.toNat?; pure (showWav (v.extractWav file (sizeT i)) (v.size (sizeT i)))
   | "i" => do let n ← bytesOfHex rest; pure (match v.index n with | .ok i => toString i | .error _ => "err")
   | "h" => do let n ← bytesOfHex rest; pure (showBool (v.contains n))
   | "S" => do
@@ -106,6 +130,17 @@ def handleClm (cmd : String) (args : List String) : Option String :=
       -- the C++ driver refuses to write the same path twice
       if (fs.map (·.1)).eraseDups.length != fs.length then none else
       pure (clmPack fs)
+  | "clm.packbig", _secs :: files => do
+      let _ ← _secs.toNat?
+      let fs ← files.mapM fileArg?
+      if !(fs.all (fun f => safeRel f.1)) then none else
+      if (fs.map (·.1)).eraseDups.length != fs.length then none else
+      pure (clmPack fs)
+  | "clm.packlist", files => do
+      let fs ← files.mapM fileArg?
+      if !(fs.all (fun f => safeRel f.1)) then none else
+      if (fs.map (·.1)).eraseDups.length != fs.length then none else
+      pure (clmPackList fs)
   | "clm.open", [c, ops] => do
       let c ← content? c
       clmOpen c (ops.splitOn ",")
